@@ -622,4 +622,54 @@ example : (attempts none [0x65,0x78,0x61,0x6d,0x70,0x6c,0x65,0x2e,0x63,0x6f,0x6d
     = [[.hookServerConnect, .socketOpen, .hookServerConnectError, .completedError],
        [.hookServerConnect, .hookServerConnectError, .completedKilled]] := by decide +kernel
 
+
+/-! ### audit round 6 (b-c20): additional non-vacuity witnesses — hypotheses of the theorems above instantiated on
+    concrete non-trivial values, computed by the kernel -/
+
+private def aS0 : State := [(0, ⟨.tcp, [([0x31,0x32,0x37,0x2e,0x30,0x2e,0x30,0x2e,0x31], 8080)]⟩), (7, ⟨.udp, [([0x3a,0x3a], 5353)]⟩)]
+
+-- `history_never_connects_to_current_own_socket`: at index 3 of the c23-3 history the operation is a connect and the
+-- destination denotes a socket of the state current THERE (it did not at index 1)
+private def aOps : List Op :=
+  [.reconfigure true [0] hStart, .connect hLocal 8081 .tcp true, .reconfigure true [0, 1] hStart, .connect hLocal 8081 .tcp true]
+example : aOps[3]? = some (Op.connect hLocal 8081 .tcp true) := rfl
+example : denotesOwnSocket (stateAfter [] (aOps.take 3)).live hLocal 8081 .tcp = true ∧
+    denotesOwnSocket (stateAfter [] (aOps.take 1)).live hLocal 8081 .tcp = false := by decide +kernel
+-- `new_listener_protected` / `kept_listener_protected`: key 1 is new, key 0 is kept, both hypotheses sets are satisfiable
+example : (1 : Nat) ∈ [0, 1] ∧ lookupKey aS0 1 = none ∧
+    lookupKey hStart 1 = some ⟨.tcp, [([0x31,0x32,0x37,0x2e,0x30,0x2e,0x30,0x2e,0x31], 8081)]⟩ ∧
+    denotesOwnSocket [⟨.tcp, [([0x31,0x32,0x37,0x2e,0x30,0x2e,0x30,0x2e,0x31], 8081)]⟩] hLocal 8081 .tcp = true ∧
+    lookupKey aS0 0 = some ⟨.tcp, [([0x31,0x32,0x37,0x2e,0x30,0x2e,0x30,0x2e,0x31], 8080)]⟩ := by decide +kernel
+-- `inflight_never_connects_to_listening_socket`: while mode 1 is still starting, the socket of mode 0 IS listening and
+-- "LOCALHOST.":8080 denotes it (hypothesis `hown` at index 3)
+private def aEvs : List LEv :=
+  [.beginUpdate true [0, 1], .stopsDone, .started 0 ⟨.tcp, [([0x31,0x32,0x37,0x2e,0x30,0x2e,0x30,0x2e,0x31], 8080)]⟩, .connect hLocal 8080 .tcp true]
+example : denotesOwnSocket (lstateAfter LState.empty (aEvs.take 3)).listening hLocal 8080 .tcp = true ∧
+    (lstateAfter LState.empty (aEvs.take 3)).listed = [0, 1] := by decide +kernel
+-- `update_is_settled_view_exact` / `reachable_keys_nodup`: a two-listener state with unique keys, one instance dropped
+-- and one added: listening = guard view = update's prediction, and it is not the empty set
+example : (aS0.map (·.1)).Nodup ∧
+    (lstateAfter (settled aS0) (updateEvents aS0 true [0, 1] hStart)).listening.length = 2 ∧
+    (update aS0 true [0, 1] hStart).live.length = 2 ∧
+    (∀ s ∈ (update aS0 true [0, 1] hStart).live,
+        s ∈ (lstateAfter (settled aS0) (updateEvents aS0 true [0, 1] hStart)).guardView) := by decide +kernel
+-- `listen_address_dotted_blocked` on a NON-loopback listener (192.168.1.5:8080): plain and IPv4-mapped spelling are
+-- refused, a neighbouring address is not
+example : selfConnect [⟨.tcp, [(dotted 192 168 1 5, 8080)]⟩] (dotted 192 168 1 5) 8080 .tcp = true ∧
+    selfConnect [⟨.tcp, [(dotted 192 168 1 5, 8080)]⟩] (mappedText 192 168 1 5) 8080 .tcp = true ∧
+    selfConnect [⟨.tcp, [(dotted 192 168 1 5, 8080)]⟩] (dotted 192 168 1 6) 8080 .tcp = false := by decide +kernel
+-- … and on that listener `localhost` is blocked by the guard although the SPEC does not demand it (the guard may over-approximate)
+example : selfConnect [⟨.tcp, [(dotted 192 168 1 5, 8080)]⟩] localhost 8080 .tcp = true ∧
+    denotesOwnSocket [⟨.tcp, [(dotted 192 168 1 5, 8080)]⟩] localhost 8080 .tcp = false := by decide +kernel
+-- `every_127_address_blocked` / `every_mapped_127_address_blocked` at the far end of 127/8
+example : selfConnect srvTcp (dotted 127 255 255 254) 8080 .tcp = true ∧
+    selfConnect srvTcp (mappedText 127 255 255 254) 8080 .tcp = true := by decide +kernel
+-- `loopback_addresses_blocked` with a SCOPED spelling: "::1%lo" parses (scope kept) and is a loopback address
+example : parseIp (normHost [0x3a,0x3a,0x31,0x25,0x6c,0x6f]) = some (Addr.v6 1 (some [0x6c,0x6f])) ∧
+    loopbackAddr (Addr.v6 1 (some [0x6c,0x6f])) = true ∧ selfConnect srvTcp [0x3a,0x3a,0x31,0x25,0x6c,0x6f] 8080 .tcp = true := by decide +kernel
+-- `blocked_sets_error_and_no_connect` / `not_blocked_reaches_socket`: both hypotheses occur for the same listener
+example : selfConnect srvTcp [0x4c,0x6f,0x63,0x61,0x6c,0x48,0x6f,0x73,0x74] 8080 .tcp = true ∧ selfConnect srvTcp [0x4c,0x6f,0x63,0x61,0x6c,0x48,0x6f,0x73,0x74] 8081 .tcp = false ∧
+    openTrace srvTcp [0x4c,0x6f,0x63,0x61,0x6c,0x48,0x6f,0x73,0x74] 8080 .tcp true = [Ev.hookServerConnect, Ev.hookServerConnectError, Ev.completedKilled] := by
+  decide +kernel
+
 end MitmVerif.Props.C23
